@@ -231,6 +231,10 @@ class TCPRegistryServer(RegistryServer):
         return logging.getLogger("REGSRV/TCP/%d" % (self.port,))
 
     def _recv(self):
+        # requests that got no reply (malformed, unknown command, failed) left their socket here
+        for sock in self._connected_sockets.values():
+            sock.close()
+        self._connected_sockets.clear()
         sock2, _ = self.sock.accept()
         try:
             sock2.settimeout(self.TIMEOUT)
